@@ -1,4 +1,511 @@
-import CosetModel.Api
-namespace Coset.Props.C06
+/-
+  C06 — what is signed, MACed or encrypted is what is later verified or decrypted.
 
+  Layers: (1) the create helpers hand the caller's function the structure bytes computed from the builder's current state and store its
+  result (or, fallible variants, return its error and no builder); (2) after creation, calls that do not touch the protected header, the
+  payload or the stored result leave all three as they are (history induction); (3) encode-then-decode of the built message keeps the
+  protected bytes, the payload and the stored result (C11 round trip), hence the verify / decrypt helpers on the decoded message compute
+  the very same structure bytes and pass them with the stored result to the caller's function, returning its result unchanged;
+  (4) a different AAD / payload / protected header gives different bytes (injectivity of the structures, C03–C05).
+-/
+import CosetProofs.Roundtrip.BuiltMessages
+import CosetProofs.Props.C03
+import CosetProofs.Props.C04
+import CosetProofs.Props.C05
+import CosetProofs.Cbor.Roundtrip
+namespace Coset.Props.C06
+open Coset Coset.Cbor Coset.Spec
+
+/-! ### the structures see a message only through its protected bytes and payload -/
+
+theorem sigStructure_congr (ctx : SignatureContext) (p1 p2 : ProtectedHeader) (sp1 sp2 : Option ProtectedHeader) (aad pl : Bytes)
+    (hp : ProtectedHeader.cborBstr p1 = ProtectedHeader.cborBstr p2)
+    (hs : sp1.map ProtectedHeader.cborBstr = sp2.map ProtectedHeader.cborBstr) :
+    sigStructureData ctx p1 sp1 aad pl = sigStructureData ctx p2 sp2 aad pl := by
+  cases sp1 <;> cases sp2 <;> simp at hs <;> simp [sigStructureData, bstrExpect, hp, hs]
+
+theorem macStructure_congr (ctx : MacContext) (p1 p2 : ProtectedHeader) (aad pl : Bytes)
+    (hp : ProtectedHeader.cborBstr p1 = ProtectedHeader.cborBstr p2) : macStructureData ctx p1 aad pl = macStructureData ctx p2 aad pl := by
+  simp [macStructureData, bstrExpect, hp]
+
+theorem encStructure_congr (ctx : EncryptionContext) (p1 p2 : ProtectedHeader) (aad : Bytes)
+    (hp : ProtectedHeader.cborBstr p1 = ProtectedHeader.cborBstr p2) : encStructureData ctx p1 aad = encStructureData ctx p2 aad := by
+  simp [encStructureData, bstrExpect, hp]
+
+/-! ### (3) the wire keeps what verification looks at -/
+
+/-- COSE_Sign1: every verification helper gives the same answer on the decoded message as on the built one. -/
+theorem sign1_wire (m : CoseSign1) (hp : ProtectedHeader.WF maxNest m.protected_) (hu : Header.WF maxNest m.unprotected) :
+    ∃ x m', m.toValue = .ok x ∧ CoseSign1.fromValue x = .ok m' ∧
+      (∀ aad, m'.tbsData aad = m.tbsData aad) ∧ (∀ pl aad, m'.tbsDetachedData pl aad = m.tbsDetachedData pl aad) ∧ m'.signature = m.signature ∧
+      (∀ {ρ : Type} aad (V : Bytes → Bytes → ρ), m'.verifySignature aad V = m.verifySignature aad V) ∧
+      (∀ {ρ : Type} pl aad (V : Bytes → Bytes → ρ), m'.verifyDetachedSignature pl aad V = m.verifyDetachedSignature pl aad V) := by
+  obtain ⟨b, y, m', h1, h2, _, _, h5, h6, h7⟩ := sign1_rt m hp hu
+  have hb : ProtectedHeader.cborBstr m.protected_ = .ok (.bytes b) := first_slot _ _ _ _ _ _ rfl h1
+  have hpb : ProtectedHeader.cborBstr m'.protected_ = ProtectedHeader.cborBstr m.protected_ := by rw [hb, cborBstr_of_orig _ b h7]
+  have t1 : ∀ aad, m'.tbsData aad = m.tbsData aad := by
+    intro aad; simp only [CoseSign1.tbsData, h5]; exact sigStructure_congr _ _ _ none none _ _ hpb rfl
+  have t2 : ∀ pl aad, m'.tbsDetachedData pl aad = m.tbsDetachedData pl aad := by
+    intro pl aad; simp only [CoseSign1.tbsDetachedData, h5]; rw [sigStructure_congr _ _ _ none none _ _ hpb rfl]
+  refine ⟨_, m', h1, h2, t1, t2, h6, ?_, ?_⟩
+  · intro ρ aad V; simp [CoseSign1.verifySignature, t1, h6]
+  · intro ρ pl aad V; simp [CoseSign1.verifyDetachedSignature, t2, h6]
+
+/-- COSE_Sign: for every signer index, verification on the decoded message equals verification on the built one. -/
+theorem sign_wire (m : CoseSign) (hp : ProtectedHeader.WF maxNest m.protected_) (hu : Header.WF maxNest m.unprotected) (hs : sigsWF maxNest m.signatures) :
+    ∃ x m', m.toValue = .ok x ∧ CoseSign.fromValue x = .ok m' ∧ m'.signatures.length = m.signatures.length ∧
+      (∀ {ρ : Type} i aad (V : Bytes → Bytes → ρ), m'.verifySignature i aad V = m.verifySignature i aad V) ∧
+      (∀ {ρ : Type} i pl aad (V : Bytes → Bytes → ρ), m'.verifyDetachedSignature i pl aad V = m.verifyDetachedSignature i pl aad V) := by
+  obtain ⟨b, y, vs, m', h1, h2, _, _, h5, h6, h7, h8⟩ := sign_rt m hp hu hs
+  have hb : ProtectedHeader.cborBstr m.protected_ = .ok (.bytes b) := by
+    simp only [CoseSign.toValue] at h1
+    cases hs' : headerSlots m.protected_ m.unprotected with
+    | ok hsl =>
+      obtain ⟨pv, uv, rfl, g1, _⟩ := headerSlots_ok _ _ _ hs'
+      simp only [hs'] at h1
+      cases hx : sigsToValues m.signatures with
+      | ok t => simp [hx] at h1; rw [← h1.1]; exact g1
+      | err e => simp [hx] at h1
+      | panic q => simp [hx] at h1
+    | err e => simp [hs'] at h1
+    | panic q => simp [hs'] at h1
+  have hpb : ProtectedHeader.cborBstr m'.protected_ = ProtectedHeader.cborBstr m.protected_ := by rw [hb, cborBstr_of_orig _ b h7]
+  have hlen : m'.signatures.length = m.signatures.length := by
+    have : ∀ (a c : List CoseSignature), sigsSame a c → a.length = c.length := by
+      intro a; induction a with
+      | nil => intro c h; cases c <;> simp [sigsSame] at h; rfl
+      | cons x xs ih => intro c h; cases c with
+        | nil => simp [sigsSame] at h
+        | cons z zs => simp only [sigsSame] at h; simp [ih zs h.2]
+    exact this _ _ h8
+  have key : ∀ i : Nat, (m.signatures[i]? = none ∧ m'.signatures[i]? = none) ∨
+      ∃ s s', m.signatures[i]? = some s ∧ m'.signatures[i]? = some s' ∧ SigSame s' s := by
+    intro i
+    cases hi : m.signatures[i]? with
+    | none => left; refine ⟨rfl, ?_⟩; rw [List.getElem?_eq_none_iff] at hi ⊢; omega
+    | some s => right; obtain ⟨s', g1, g2⟩ := sigsSame_get _ _ h8 i s hi; exact ⟨s, s', rfl, g1, g2⟩
+  refine ⟨_, m', h1, h2, hlen, ?_, ?_⟩
+  · intro ρ i aad V
+    rcases key i with ⟨k1, k2⟩ | ⟨s, s', k1, k2, k3⟩
+    · simp [CoseSign.verifySignature, vindex, k1, k2]
+    · have : m'.tbsData aad s' = m.tbsData aad s := by
+        simp only [CoseSign.tbsData, h5]; exact sigStructure_congr _ _ _ _ _ _ _ hpb (by simp [k3.1])
+      simp [CoseSign.verifySignature, vindex, k1, k2, this, k3.2]
+  · intro ρ i pl aad V
+    rcases key i with ⟨k1, k2⟩ | ⟨s, s', k1, k2, k3⟩
+    · simp [CoseSign.verifyDetachedSignature, vindex, k1, k2]
+    · have : m'.tbsDetachedData pl aad s' = m.tbsDetachedData pl aad s := by
+        simp only [CoseSign.tbsDetachedData, h5]; rw [sigStructure_congr _ _ _ (some s'.protected_) (some s.protected_) _ _ hpb (by simp [k3.1])]
+      simp [CoseSign.verifyDetachedSignature, vindex, k1, k2, this, k3.2]
+
+theorem mac0_wire (m : CoseMac0) (hp : ProtectedHeader.WF maxNest m.protected_) (hu : Header.WF maxNest m.unprotected) :
+    ∃ x m', m.toValue = .ok x ∧ CoseMac0.fromValue x = .ok m' ∧ (∀ aad, m'.tbm aad = m.tbm aad) ∧ m'.tag = m.tag ∧
+      (∀ {ρ : Type} aad (V : Bytes → Bytes → ρ), m'.verifyTag aad V = m.verifyTag aad V) := by
+  obtain ⟨b, y, m', h1, h2, _, _, h5, h6, h7⟩ := mac0_rt m hp hu
+  have hb : ProtectedHeader.cborBstr m.protected_ = .ok (.bytes b) := first_slot _ _ _ _ _ _ rfl h1
+  have hpb : ProtectedHeader.cborBstr m'.protected_ = ProtectedHeader.cborBstr m.protected_ := by rw [hb, cborBstr_of_orig _ b h7]
+  have t1 : ∀ aad, m'.tbm aad = m.tbm aad := by
+    intro aad; simp only [CoseMac0.tbm, h5]; cases m.payload <;> simp [macStructure_congr _ _ _ _ _ hpb]
+  exact ⟨_, m', h1, h2, t1, h6, by intro ρ aad V; simp [CoseMac0.verifyTag, t1, h6]⟩
+
+theorem mac_wire (m : CoseMac) (hp : ProtectedHeader.WF maxNest m.protected_) (hu : Header.WF maxNest m.unprotected) (hr : rcpsWF m.recipients) :
+    ∃ x m', m.toValue = .ok x ∧ CoseMac.fromValue x = .ok m' ∧ (∀ aad, m'.tbm aad = m.tbm aad) ∧ m'.tag = m.tag ∧
+      (∀ {ρ : Type} aad (V : Bytes → Bytes → ρ), m'.verifyTag aad V = m.verifyTag aad V) := by
+  obtain ⟨b, y, ys, m', h1, h2, _, _, h5, h6, _, h7⟩ := mac_rt m hp hu hr
+  have hb : ProtectedHeader.cborBstr m.protected_ = .ok (.bytes b) := by
+    simp only [CoseMac.toValue] at h1
+    cases hs' : headerSlots m.protected_ m.unprotected with
+    | ok hsl =>
+      obtain ⟨pv, uv, rfl, g1, _⟩ := headerSlots_ok _ _ _ hs'
+      simp only [hs'] at h1
+      cases hx : recipientsToValues m.recipients with
+      | ok t => simp [hx] at h1; rw [← h1.1]; exact g1
+      | err e => simp [hx] at h1
+      | panic q => simp [hx] at h1
+    | err e => simp [hs'] at h1
+    | panic q => simp [hs'] at h1
+  have hpb : ProtectedHeader.cborBstr m'.protected_ = ProtectedHeader.cborBstr m.protected_ := by rw [hb, cborBstr_of_orig _ b h7]
+  have t1 : ∀ aad, m'.tbm aad = m.tbm aad := by
+    intro aad; simp only [CoseMac.tbm, h5]; cases m.payload <;> simp [macStructure_congr _ _ _ _ _ hpb]
+  exact ⟨_, m', h1, h2, t1, h6, by intro ρ aad V; simp [CoseMac.verifyTag, t1, h6]⟩
+
+theorem encrypt0_wire (m : CoseEncrypt0) (hp : ProtectedHeader.WF maxNest m.protected_) (hu : Header.WF maxNest m.unprotected) :
+    ∃ x m', m.toValue = .ok x ∧ CoseEncrypt0.fromValue x = .ok m' ∧ m'.ciphertext = m.ciphertext ∧
+      (∀ {ρ : Type} aad (D : Bytes → Bytes → ρ), m'.decrypt aad D = m.decrypt aad D) := by
+  obtain ⟨b, y, m', h1, h2, _, _, h5, h7⟩ := encrypt0_rt m hp hu
+  have hb : ProtectedHeader.cborBstr m.protected_ = .ok (.bytes b) := first_slot _ _ _ _ _ _ rfl h1
+  have hpb : ProtectedHeader.cborBstr m'.protected_ = ProtectedHeader.cborBstr m.protected_ := by rw [hb, cborBstr_of_orig _ b h7]
+  exact ⟨_, m', h1, h2, h5, by intro ρ aad D; simp only [CoseEncrypt0.decrypt, h5, encStructure_congr _ _ _ _ hpb]⟩
+
+theorem encrypt_wire (m : CoseEncrypt) (hp : ProtectedHeader.WF maxNest m.protected_) (hu : Header.WF maxNest m.unprotected) (hr : rcpsWF m.recipients) :
+    ∃ x m', m.toValue = .ok x ∧ CoseEncrypt.fromValue x = .ok m' ∧ m'.ciphertext = m.ciphertext ∧
+      (∀ {ρ : Type} aad (D : Bytes → Bytes → ρ), m'.decrypt aad D = m.decrypt aad D) := by
+  obtain ⟨b, y, ys, m', h1, h2, _, _, h5, _, h7⟩ := encrypt_rt m hp hu hr
+  have hb : ProtectedHeader.cborBstr m.protected_ = .ok (.bytes b) := by
+    simp only [CoseEncrypt.toValue] at h1
+    cases hs' : headerSlots m.protected_ m.unprotected with
+    | ok hsl =>
+      obtain ⟨pv, uv, rfl, g1, _⟩ := headerSlots_ok _ _ _ hs'
+      simp only [hs'] at h1
+      cases hx : recipientsToValues m.recipients with
+      | ok t => simp [hx] at h1; rw [← h1.1]; exact g1
+      | err e => simp [hx] at h1
+      | panic q => simp [hx] at h1
+    | err e => simp [hs'] at h1
+    | panic q => simp [hs'] at h1
+  have hpb : ProtectedHeader.cborBstr m'.protected_ = ProtectedHeader.cborBstr m.protected_ := by rw [hb, cborBstr_of_orig _ b h7]
+  exact ⟨_, m', h1, h2, h5, by intro ρ aad D; simp only [CoseEncrypt.decrypt, h5, encStructure_congr _ _ _ _ hpb]⟩
+
+theorem recipient_wire (r : CoseRecipient) (hw : r.WF) :
+    ∃ x r', r.toValue = .ok x ∧ rcpFromValue x = .ok r' ∧ r'.ciphertext = r.ciphertext ∧
+      (∀ {ρ : Type} ctx aad (D : Bytes → Bytes → ρ), r'.decrypt ctx aad D = r.decrypt ctx aad D) := by
+  obtain ⟨x, r', h1, h2, h3, h4⟩ := rcp_rt_same r hw
+  exact ⟨x, r', h1, h2, h4, by intro ρ ctx aad D; simp only [CoseRecipient.decrypt, h4, encStructure_congr _ _ _ _ h3]⟩
+
+/-! ### (1) creation: the caller's function gets the structure bytes of the current state; its result is stored -/
+
+theorem sign1_create (m : CoseSign1) (aad tbs : Bytes) (signer : Bytes → Bytes) (ht : m.tbsData aad = .ok tbs) :
+    Sign1Op.apply m (.createSignature aad signer) = .next { m with signature := signer tbs } := by simp [Sign1Op.apply, ht, Step.ofRes]
+theorem sign1_create_detached (m : CoseSign1) (pl aad tbs : Bytes) (signer : Bytes → Bytes) (ht : m.tbsDetachedData pl aad = .ok tbs) :
+    Sign1Op.apply m (.createDetachedSignature pl aad signer) = .next { m with signature := signer tbs } := by simp [Sign1Op.apply, ht, Step.ofRes]
+/-- fallible variants: success stores the result exactly as the infallible one; failure returns the caller's error and no builder. -/
+theorem sign1_try_create (m : CoseSign1) (aad tbs : Bytes) (signer : Bytes → Except Nat Bytes) (ht : m.tbsData aad = .ok tbs) :
+    (∀ sig, signer tbs = .ok sig → Sign1Op.apply m (.tryCreateSignature aad signer) = .next { m with signature := sig }) ∧
+    (∀ n, signer tbs = .error n → Sign1Op.apply m (.tryCreateSignature aad signer) = .fail n) := by
+  constructor <;> intro x hx <;> simp [Sign1Op.apply, ht, Step.ofRes, hx]
+theorem sign1_try_create_detached (m : CoseSign1) (pl aad tbs : Bytes) (signer : Bytes → Except Nat Bytes) (ht : m.tbsDetachedData pl aad = .ok tbs) :
+    (∀ sig, signer tbs = .ok sig → Sign1Op.apply m (.tryCreateDetachedSignature pl aad signer) = .next { m with signature := sig }) ∧
+    (∀ n, signer tbs = .error n → Sign1Op.apply m (.tryCreateDetachedSignature pl aad signer) = .fail n) := by
+  constructor <;> intro x hx <;> simp [Sign1Op.apply, ht, Step.ofRes, hx]
+
+theorem sign_add_created (m : CoseSign) (s : CoseSignature) (aad tbs : Bytes) (signer : Bytes → Bytes) (ht : m.tbsData aad s = .ok tbs) :
+    SignOp.apply m (.addCreatedSignature s aad signer) = .next { m with signatures := m.signatures ++ [withSignature s (signer tbs)] } := by
+  simp [SignOp.apply, ht, Step.ofRes]
+theorem sign_add_detached (m : CoseSign) (s : CoseSignature) (pl aad tbs : Bytes) (signer : Bytes → Bytes) (ht : m.tbsDetachedData pl aad s = .ok tbs) :
+    SignOp.apply m (.addDetachedSignature s pl aad signer) = .next { m with signatures := m.signatures ++ [withSignature s (signer tbs)] } := by
+  simp [SignOp.apply, ht, Step.ofRes]
+theorem sign_try_add (m : CoseSign) (s : CoseSignature) (aad tbs : Bytes) (signer : Bytes → Except Nat Bytes) (ht : m.tbsData aad s = .ok tbs) :
+    (∀ sig, signer tbs = .ok sig →
+      SignOp.apply m (.tryAddCreatedSignature s aad signer) = .next { m with signatures := m.signatures ++ [withSignature s sig] }) ∧
+    (∀ n, signer tbs = .error n → SignOp.apply m (.tryAddCreatedSignature s aad signer) = .fail n) := by
+  constructor <;> intro x hx <;> simp [SignOp.apply, ht, Step.ofRes, hx]
+theorem sign_try_add_detached (m : CoseSign) (s : CoseSignature) (pl aad tbs : Bytes) (signer : Bytes → Except Nat Bytes)
+    (ht : m.tbsDetachedData pl aad s = .ok tbs) :
+    (∀ sig, signer tbs = .ok sig →
+      SignOp.apply m (.tryAddDetachedSignature s pl aad signer) = .next { m with signatures := m.signatures ++ [withSignature s sig] }) ∧
+    (∀ n, signer tbs = .error n → SignOp.apply m (.tryAddDetachedSignature s pl aad signer) = .fail n) := by
+  constructor <;> intro x hx <;> simp [SignOp.apply, ht, Step.ofRes, hx]
+
+theorem mac_create (m : CoseMac) (aad t : Bytes) (f : Bytes → Bytes) (ft : Bytes → Except Nat Bytes) (ht : m.tbm aad = .ok t) :
+    MacOp.apply m (.createTag aad f) = .next { m with tag := f t } ∧
+    (∀ tag, ft t = .ok tag → MacOp.apply m (.tryCreateTag aad ft) = .next { m with tag := tag }) ∧
+    (∀ n, ft t = .error n → MacOp.apply m (.tryCreateTag aad ft) = .fail n) := by
+  refine ⟨by simp [MacOp.apply, ht, Step.ofRes], ?_, ?_⟩ <;> intro x hx <;> simp [MacOp.apply, ht, Step.ofRes, hx]
+theorem mac0_create (m : CoseMac0) (aad t : Bytes) (f : Bytes → Bytes) (ft : Bytes → Except Nat Bytes) (ht : m.tbm aad = .ok t) :
+    Mac0Op.apply m (.createTag aad f) = .next { m with tag := f t } ∧
+    (∀ tag, ft t = .ok tag → Mac0Op.apply m (.tryCreateTag aad ft) = .next { m with tag := tag }) ∧
+    (∀ n, ft t = .error n → Mac0Op.apply m (.tryCreateTag aad ft) = .fail n) := by
+  refine ⟨by simp [Mac0Op.apply, ht, Step.ofRes], ?_, ?_⟩ <;> intro x hx <;> simp [Mac0Op.apply, ht, Step.ofRes, hx]
+
+theorem encrypt_create (m : CoseEncrypt) (pt aad a : Bytes) (f : Bytes → Bytes → Bytes) (ft : Bytes → Bytes → Except Nat Bytes)
+    (ha : encStructureData .coseEncrypt m.protected_ aad = .ok a) :
+    EncryptOp.apply m (.createCiphertext pt aad f) = .next { m with ciphertext := some (f pt a) } ∧
+    (∀ ct, ft pt a = .ok ct → EncryptOp.apply m (.tryCreateCiphertext pt aad ft) = .next { m with ciphertext := some ct }) ∧
+    (∀ n, ft pt a = .error n → EncryptOp.apply m (.tryCreateCiphertext pt aad ft) = .fail n) := by
+  refine ⟨by simp [EncryptOp.apply, ha, Step.ofRes], ?_, ?_⟩ <;> intro x hx <;> simp [EncryptOp.apply, ha, Step.ofRes, hx]
+theorem encrypt0_create (m : CoseEncrypt0) (pt aad a : Bytes) (f : Bytes → Bytes → Bytes) (ft : Bytes → Bytes → Except Nat Bytes)
+    (ha : encStructureData .coseEncrypt0 m.protected_ aad = .ok a) :
+    Encrypt0Op.apply m (.createCiphertext pt aad f) = .next { m with ciphertext := some (f pt a) } ∧
+    (∀ ct, ft pt a = .ok ct → Encrypt0Op.apply m (.tryCreateCiphertext pt aad ft) = .next { m with ciphertext := some ct }) ∧
+    (∀ n, ft pt a = .error n → Encrypt0Op.apply m (.tryCreateCiphertext pt aad ft) = .fail n) := by
+  refine ⟨by simp [Encrypt0Op.apply, ha, Step.ofRes], ?_, ?_⟩ <;> intro x hx <;> simp [Encrypt0Op.apply, ha, Step.ofRes, hx]
+theorem recipient_create (m : CoseRecipient) (ctx : EncryptionContext) (pt aad a : Bytes) (f : Bytes → Bytes → Bytes)
+    (ft : Bytes → Bytes → Except Nat Bytes) (hr : ctx.isRecipient = true) (ha : encStructureData ctx m.protected_ aad = .ok a) :
+    RecipientOp.apply m (.createCiphertext ctx pt aad f) = .next (.mk m.protected_ m.unprotected (some (f pt a)) m.recipients) ∧
+    (∀ ct, ft pt a = .ok ct → RecipientOp.apply m (.tryCreateCiphertext ctx pt aad ft) = .next (.mk m.protected_ m.unprotected (some ct) m.recipients)) ∧
+    (∀ n, ft pt a = .error n → RecipientOp.apply m (.tryCreateCiphertext ctx pt aad ft) = .fail n) := by
+  refine ⟨by simp [RecipientOp.apply, recipientAad, hr, ha, Step.ofRes], ?_, ?_⟩ <;> intro x hx <;>
+    simp [RecipientOp.apply, recipientAad, hr, ha, Step.ofRes, hx]
+
+/-! ### (2) histories: later calls that do not touch the protected header, the payload or the stored result -/
+
+theorem runOps_preserves {β ο : Type} (apply : β → ο → Step β) (P : β → β → Prop) (hrefl : ∀ b, P b b) (htrans : ∀ a b c, P a b → P b c → P a c)
+    (ok : ο → Bool) (hstep : ∀ b o b', ok o = true → apply b o = .next b' → P b b') :
+    ∀ (ops : List ο) (b b' : β) (i j : Nat), ops.all ok = true → runOps apply ops b i = (.next b', j) → P b b' := by
+  intro ops
+  induction ops with
+  | nil => intro b b' i j _ h; simp [runOps] at h; rw [h.1]; exact hrefl _
+  | cons o os ih =>
+    intro b b' i j hall h
+    simp only [List.all_cons, Bool.and_eq_true] at hall
+    simp only [runOps] at h
+    cases ha : apply b o with
+    | next b1 => simp only [ha] at h; exact htrans _ _ _ (hstep b o b1 hall.1 ha) (ih b1 b' _ j hall.2 h)
+    | fail n => simp [ha] at h
+    | panic q => simp [ha] at h
+
+def Sign1Op.keeps : Sign1Op → Bool | .unprotected _ => true | _ => false
+def SignOp.keeps : SignOp → Bool | .protected_ _ => false | .payload _ => false | _ => true
+def Mac0Op.keeps : Mac0Op → Bool | .unprotected _ => true | _ => false
+def MacOp.keeps : MacOp → Bool | .unprotected _ => true | .addRecipient _ => true | _ => false
+def Encrypt0Op.keeps : Encrypt0Op → Bool | .unprotected _ => true | _ => false
+def EncryptOp.keeps : EncryptOp → Bool | .unprotected _ => true | .addRecipient _ => true | _ => false
+
+theorem sign1_history (ops : List Sign1Op) (m m' : CoseSign1) (i j : Nat) (hk : ops.all Sign1Op.keeps = true)
+    (h : runOps Sign1Op.apply ops m i = (.next m', j)) : m'.protected_ = m.protected_ ∧ m'.payload = m.payload ∧ m'.signature = m.signature :=
+  runOps_preserves Sign1Op.apply (fun a b => b.protected_ = a.protected_ ∧ b.payload = a.payload ∧ b.signature = a.signature)
+    (fun _ => ⟨rfl, rfl, rfl⟩) (fun a b c h1 h2 => ⟨h2.1.trans h1.1, h2.2.1.trans h1.2.1, h2.2.2.trans h1.2.2⟩) Sign1Op.keeps
+    (by intro b o b' ho ha; cases o <;> simp [Sign1Op.keeps] at ho; simp [Sign1Op.apply] at ha; subst ha; exact ⟨rfl, rfl, rfl⟩) ops m m' i j hk h
+
+theorem mac0_history (ops : List Mac0Op) (m m' : CoseMac0) (i j : Nat) (hk : ops.all Mac0Op.keeps = true)
+    (h : runOps Mac0Op.apply ops m i = (.next m', j)) : m'.protected_ = m.protected_ ∧ m'.payload = m.payload ∧ m'.tag = m.tag :=
+  runOps_preserves Mac0Op.apply (fun a b => b.protected_ = a.protected_ ∧ b.payload = a.payload ∧ b.tag = a.tag)
+    (fun _ => ⟨rfl, rfl, rfl⟩) (fun a b c h1 h2 => ⟨h2.1.trans h1.1, h2.2.1.trans h1.2.1, h2.2.2.trans h1.2.2⟩) Mac0Op.keeps
+    (by intro b o b' ho ha; cases o <;> simp [Mac0Op.keeps] at ho; simp [Mac0Op.apply] at ha; subst ha; exact ⟨rfl, rfl, rfl⟩) ops m m' i j hk h
+
+theorem mac_history (ops : List MacOp) (m m' : CoseMac) (i j : Nat) (hk : ops.all MacOp.keeps = true)
+    (h : runOps MacOp.apply ops m i = (.next m', j)) : m'.protected_ = m.protected_ ∧ m'.payload = m.payload ∧ m'.tag = m.tag :=
+  runOps_preserves MacOp.apply (fun a b => b.protected_ = a.protected_ ∧ b.payload = a.payload ∧ b.tag = a.tag)
+    (fun _ => ⟨rfl, rfl, rfl⟩) (fun a b c h1 h2 => ⟨h2.1.trans h1.1, h2.2.1.trans h1.2.1, h2.2.2.trans h1.2.2⟩) MacOp.keeps
+    (by intro b o b' ho ha; cases o <;> simp [MacOp.keeps] at ho <;> (simp [MacOp.apply] at ha; subst ha; exact ⟨rfl, rfl, rfl⟩)) ops m m' i j hk h
+
+theorem encrypt0_history (ops : List Encrypt0Op) (m m' : CoseEncrypt0) (i j : Nat) (hk : ops.all Encrypt0Op.keeps = true)
+    (h : runOps Encrypt0Op.apply ops m i = (.next m', j)) : m'.protected_ = m.protected_ ∧ m'.ciphertext = m.ciphertext :=
+  runOps_preserves Encrypt0Op.apply (fun a b => b.protected_ = a.protected_ ∧ b.ciphertext = a.ciphertext)
+    (fun _ => ⟨rfl, rfl⟩) (fun a b c h1 h2 => ⟨h2.1.trans h1.1, h2.2.trans h1.2⟩) Encrypt0Op.keeps
+    (by intro b o b' ho ha; cases o <;> simp [Encrypt0Op.keeps] at ho; simp [Encrypt0Op.apply] at ha; subst ha; exact ⟨rfl, rfl⟩) ops m m' i j hk h
+
+theorem encrypt_history (ops : List EncryptOp) (m m' : CoseEncrypt) (i j : Nat) (hk : ops.all EncryptOp.keeps = true)
+    (h : runOps EncryptOp.apply ops m i = (.next m', j)) : m'.protected_ = m.protected_ ∧ m'.ciphertext = m.ciphertext :=
+  runOps_preserves EncryptOp.apply (fun a b => b.protected_ = a.protected_ ∧ b.ciphertext = a.ciphertext)
+    (fun _ => ⟨rfl, rfl⟩) (fun a b c h1 h2 => ⟨h2.1.trans h1.1, h2.2.trans h1.2⟩) EncryptOp.keeps
+    (by intro b o b' ho ha; cases o <;> simp [EncryptOp.keeps] at ho <;> (simp [EncryptOp.apply] at ha; subst ha; exact ⟨rfl, rfl⟩)) ops m m' i j hk h
+
+/-- COSE_Sign: later calls (more signers of any kind, unprotected header) keep the body protected header, the payload and every signer
+    already added, at its index. -/
+theorem sign_history (ops : List SignOp) (m m' : CoseSign) (i j : Nat) (hk : ops.all SignOp.keeps = true)
+    (h : runOps SignOp.apply ops m i = (.next m', j)) : m'.protected_ = m.protected_ ∧ m'.payload = m.payload ∧ m.signatures <+: m'.signatures :=
+  runOps_preserves SignOp.apply (fun a b => b.protected_ = a.protected_ ∧ b.payload = a.payload ∧ a.signatures <+: b.signatures)
+    (fun _ => ⟨rfl, rfl, List.prefix_refl _⟩) (fun a b c h1 h2 => ⟨h2.1.trans h1.1, h2.2.1.trans h1.2.1, List.IsPrefix.trans h1.2.2 h2.2.2⟩) SignOp.keeps
+    (by
+      intro b o b' ho ha
+      cases o with
+      | protected_ h => simp [SignOp.keeps] at ho
+      | payload p => simp [SignOp.keeps] at ho
+      | unprotected h => simp [SignOp.apply] at ha; subst ha; exact ⟨rfl, rfl, List.prefix_refl _⟩
+      | addSignature s => simp [SignOp.apply] at ha; subst ha; exact ⟨rfl, rfl, List.prefix_append _ _⟩
+      | addCreatedSignature s aad f =>
+        simp only [SignOp.apply, Step.ofRes] at ha
+        cases ht : b.tbsData aad s <;> simp [ht] at ha
+        subst ha; exact ⟨rfl, rfl, List.prefix_append _ _⟩
+      | addDetachedSignature s pl aad f =>
+        simp only [SignOp.apply, Step.ofRes] at ha
+        cases ht : b.tbsDetachedData pl aad s <;> simp [ht] at ha
+        subst ha; exact ⟨rfl, rfl, List.prefix_append _ _⟩
+      | tryAddCreatedSignature s aad f =>
+        simp only [SignOp.apply, Step.ofRes] at ha
+        cases ht : b.tbsData aad s <;> simp [ht] at ha
+        rename_i t
+        cases hf : f t <;> simp [hf] at ha
+        subst ha; exact ⟨rfl, rfl, List.prefix_append _ _⟩
+      | tryAddDetachedSignature s pl aad f =>
+        simp only [SignOp.apply, Step.ofRes] at ha
+        cases ht : b.tbsDetachedData pl aad s <;> simp [ht] at ha
+        rename_i t
+        cases hf : f t <;> simp [hf] at ha
+        subst ha; exact ⟨rfl, rfl, List.prefix_append _ _⟩) ops m m' i j hk h
+
+/-! ### end to end: create, any later harmless calls, encode, decode, verify -/
+
+theorem sign1_end_to_end {ρ : Type} (m0 m : CoseSign1) (aad tbs : Bytes) (signer : Bytes → Bytes) (post : List Sign1Op) (i j : Nat)
+    (ht : m0.tbsData aad = .ok tbs) (hk : post.all Sign1Op.keeps = true)
+    (hrun : runOps Sign1Op.apply (.createSignature aad signer :: post) m0 i = (.next m, j))
+    (hp : ProtectedHeader.WF maxNest m.protected_) (hu : Header.WF maxNest m.unprotected) (V : Bytes → Bytes → ρ) :
+    ∃ x m', m.toValue = .ok x ∧ CoseSign1.fromValue x = .ok m' ∧ m'.verifySignature aad V = .ok (V (signer tbs) tbs) := by
+  simp only [runOps, sign1_create m0 aad tbs signer ht] at hrun
+  obtain ⟨e1, e2, e3⟩ := sign1_history post _ m _ j hk hrun
+  obtain ⟨x, m', h1, h2, _, _, _, h6, _⟩ := sign1_wire m hp hu
+  refine ⟨x, m', h1, h2, ?_⟩
+  rw [h6 aad V]
+  have : m.tbsData aad = .ok tbs := by simp only [CoseSign1.tbsData, e1, e2]; exact ht
+  rw [C03.verify_passes m aad V tbs this, e3]
+
+theorem sign1_detached_end_to_end {ρ : Type} (m0 m : CoseSign1) (pl aad tbs : Bytes) (signer : Bytes → Bytes) (post : List Sign1Op) (i j : Nat)
+    (ht : m0.tbsDetachedData pl aad = .ok tbs) (hk : post.all Sign1Op.keeps = true)
+    (hrun : runOps Sign1Op.apply (.createDetachedSignature pl aad signer :: post) m0 i = (.next m, j))
+    (hp : ProtectedHeader.WF maxNest m.protected_) (hu : Header.WF maxNest m.unprotected) (V : Bytes → Bytes → ρ) :
+    ∃ x m', m.toValue = .ok x ∧ CoseSign1.fromValue x = .ok m' ∧ m'.verifyDetachedSignature pl aad V = .ok (V (signer tbs) tbs) := by
+  simp only [runOps, sign1_create_detached m0 pl aad tbs signer ht] at hrun
+  obtain ⟨e1, e2, e3⟩ := sign1_history post _ m _ j hk hrun
+  obtain ⟨x, m', h1, h2, _, _, _, _, h7⟩ := sign1_wire m hp hu
+  refine ⟨x, m', h1, h2, ?_⟩
+  rw [h7 pl aad V]
+  have : m.tbsDetachedData pl aad = .ok tbs := by simp only [CoseSign1.tbsDetachedData, e1, e2]; exact ht
+  simp [CoseSign1.verifyDetachedSignature, this, e3]
+
+/-- COSE_Sign: the signer added by `add_created_signature` when `n` signers were present is verified at index `n`, whatever is added later. -/
+theorem sign_end_to_end {ρ : Type} (m0 m : CoseSign) (s : CoseSignature) (aad tbs : Bytes) (signer : Bytes → Bytes) (post : List SignOp) (i j : Nat)
+    (ht : m0.tbsData aad s = .ok tbs) (hk : post.all SignOp.keeps = true)
+    (hrun : runOps SignOp.apply (.addCreatedSignature s aad signer :: post) m0 i = (.next m, j))
+    (hp : ProtectedHeader.WF maxNest m.protected_) (hu : Header.WF maxNest m.unprotected) (hs : sigsWF maxNest m.signatures) (V : Bytes → Bytes → ρ) :
+    ∃ x m', m.toValue = .ok x ∧ CoseSign.fromValue x = .ok m' ∧ m'.verifySignature m0.signatures.length aad V = .ok (V (signer tbs) tbs) := by
+  simp only [runOps, sign_add_created m0 s aad tbs signer ht] at hrun
+  obtain ⟨e1, e2, e3⟩ := sign_history post _ m _ j hk hrun
+  obtain ⟨x, m', h1, h2, _, h4, _⟩ := sign_wire m hp hu hs
+  refine ⟨x, m', h1, h2, ?_⟩
+  rw [h4 m0.signatures.length aad V]
+  obtain ⟨rest, hrest⟩ := e3
+  have hidx : m.signatures[m0.signatures.length]? = some (withSignature s (signer tbs)) := by
+    rw [← hrest]; simp
+  have : m.tbsData aad (withSignature s (signer tbs)) = .ok tbs := by
+    simp only [CoseSign.tbsData, e1, e2, withSignature, CoseSignature.protected_] at ht ⊢; exact ht
+  rw [C03.verify_passes_sign m _ aad V _ tbs hidx this]
+  simp [withSignature, CoseSignature.signature]
+
+theorem mac0_end_to_end {ρ : Type} (m0 m : CoseMac0) (aad t : Bytes) (f : Bytes → Bytes) (post : List Mac0Op) (i j : Nat)
+    (ht : m0.tbm aad = .ok t) (hk : post.all Mac0Op.keeps = true)
+    (hrun : runOps Mac0Op.apply (.createTag aad f :: post) m0 i = (.next m, j))
+    (hp : ProtectedHeader.WF maxNest m.protected_) (hu : Header.WF maxNest m.unprotected) (V : Bytes → Bytes → ρ) :
+    ∃ x m', m.toValue = .ok x ∧ CoseMac0.fromValue x = .ok m' ∧ m'.verifyTag aad V = .ok (V (f t) t) := by
+  simp only [runOps, (mac0_create m0 aad t f (fun _ => .error 0) ht).1] at hrun
+  obtain ⟨e1, e2, e3⟩ := mac0_history post _ m _ j hk hrun
+  obtain ⟨x, m', h1, h2, _, _, h5⟩ := mac0_wire m hp hu
+  refine ⟨x, m', h1, h2, ?_⟩
+  rw [h5 aad V]
+  have : m.tbm aad = .ok t := by simp only [CoseMac0.tbm, e1, e2]; exact ht
+  rw [C04.verify_passes0 m aad V t this, e3]
+
+theorem mac_end_to_end {ρ : Type} (m0 m : CoseMac) (aad t : Bytes) (f : Bytes → Bytes) (post : List MacOp) (i j : Nat)
+    (ht : m0.tbm aad = .ok t) (hk : post.all MacOp.keeps = true)
+    (hrun : runOps MacOp.apply (.createTag aad f :: post) m0 i = (.next m, j))
+    (hp : ProtectedHeader.WF maxNest m.protected_) (hu : Header.WF maxNest m.unprotected) (hr : rcpsWF m.recipients) (V : Bytes → Bytes → ρ) :
+    ∃ x m', m.toValue = .ok x ∧ CoseMac.fromValue x = .ok m' ∧ m'.verifyTag aad V = .ok (V (f t) t) := by
+  simp only [runOps, (mac_create m0 aad t f (fun _ => .error 0) ht).1] at hrun
+  obtain ⟨e1, e2, e3⟩ := mac_history post _ m _ j hk hrun
+  obtain ⟨x, m', h1, h2, _, _, h5⟩ := mac_wire m hp hu hr
+  refine ⟨x, m', h1, h2, ?_⟩
+  rw [h5 aad V]
+  have : m.tbm aad = .ok t := by simp only [CoseMac.tbm, e1, e2]; exact ht
+  rw [C04.verify_passes m aad V t this, e3]
+
+theorem encrypt0_end_to_end {ρ : Type} (m0 m : CoseEncrypt0) (pt aad a : Bytes) (f : Bytes → Bytes → Bytes) (post : List Encrypt0Op) (i j : Nat)
+    (ha : encStructureData .coseEncrypt0 m0.protected_ aad = .ok a) (hk : post.all Encrypt0Op.keeps = true)
+    (hrun : runOps Encrypt0Op.apply (.createCiphertext pt aad f :: post) m0 i = (.next m, j))
+    (hp : ProtectedHeader.WF maxNest m.protected_) (hu : Header.WF maxNest m.unprotected) (D : Bytes → Bytes → ρ) :
+    ∃ x m', m.toValue = .ok x ∧ CoseEncrypt0.fromValue x = .ok m' ∧ m'.decrypt aad D = .ok (D (f pt a) a) := by
+  simp only [runOps, (encrypt0_create m0 pt aad a f (fun _ _ => .error 0) ha).1] at hrun
+  obtain ⟨e1, e2⟩ := encrypt0_history post _ m _ j hk hrun
+  obtain ⟨x, m', h1, h2, _, h4⟩ := encrypt0_wire m hp hu
+  refine ⟨x, m', h1, h2, ?_⟩
+  rw [h4 aad D]
+  simp only [CoseEncrypt0.decrypt, e1, e2, ha]
+
+theorem encrypt_end_to_end {ρ : Type} (m0 m : CoseEncrypt) (pt aad a : Bytes) (f : Bytes → Bytes → Bytes) (post : List EncryptOp) (i j : Nat)
+    (ha : encStructureData .coseEncrypt m0.protected_ aad = .ok a) (hk : post.all EncryptOp.keeps = true)
+    (hrun : runOps EncryptOp.apply (.createCiphertext pt aad f :: post) m0 i = (.next m, j))
+    (hp : ProtectedHeader.WF maxNest m.protected_) (hu : Header.WF maxNest m.unprotected) (hr : rcpsWF m.recipients) (D : Bytes → Bytes → ρ) :
+    ∃ x m', m.toValue = .ok x ∧ CoseEncrypt.fromValue x = .ok m' ∧ m'.decrypt aad D = .ok (D (f pt a) a) := by
+  simp only [runOps, (encrypt_create m0 pt aad a f (fun _ _ => .error 0) ha).1] at hrun
+  obtain ⟨e1, e2⟩ := encrypt_history post _ m _ j hk hrun
+  obtain ⟨x, m', h1, h2, _, h4⟩ := encrypt_wire m hp hu hr
+  refine ⟨x, m', h1, h2, ?_⟩
+  rw [h4 aad D]
+  simp only [CoseEncrypt.decrypt, e1, e2, ha]
+
+/-! ### (4) sensitivity: different AAD, payload or protected bytes give different bytes -/
+
+theorem sign1_sensitive (m1 m2 : CoseSign1) (aad1 aad2 b1 b2 : Bytes)
+    (h1 : ProtectedHeader.cborBstr m1.protected_ = .ok (.bytes b1)) (h2 : ProtectedHeader.cborBstr m2.protected_ = .ok (.bytes b2))
+    (l1 : b1.length < 2 ^ 64 ∧ aad1.length < 2 ^ 64 ∧ (m1.payload.getD []).length < 2 ^ 64)
+    (l2 : b2.length < 2 ^ 64 ∧ aad2.length < 2 ^ 64 ∧ (m2.payload.getD []).length < 2 ^ 64)
+    (h : m1.tbsData aad1 = m2.tbsData aad2) : b1 = b2 ∧ aad1 = aad2 ∧ m1.payload.getD [] = m2.payload.getD [] := by
+  rw [C03.sign1_tbs m1 aad1 b1 h1, C03.sign1_tbs m2 aad2 b2 h2] at h
+  simp only [Res.ok.injEq] at h
+  rw [← C03.contexts.2.1] at h
+  have := (C03.injective .coseSign1 .coseSign1 _ _ (by simp; omega) (by simp; omega) h).2
+  simpa using this
+
+theorem sign_sensitive (m1 m2 : CoseSign) (g1 g2 : CoseSignature) (aad1 aad2 b1 b2 s1 s2 : Bytes)
+    (h1 : ProtectedHeader.cborBstr m1.protected_ = .ok (.bytes b1)) (h2 : ProtectedHeader.cborBstr m2.protected_ = .ok (.bytes b2))
+    (k1 : ProtectedHeader.cborBstr g1.protected_ = .ok (.bytes s1)) (k2 : ProtectedHeader.cborBstr g2.protected_ = .ok (.bytes s2))
+    (l1 : b1.length < 2 ^ 64 ∧ s1.length < 2 ^ 64 ∧ aad1.length < 2 ^ 64 ∧ (m1.payload.getD []).length < 2 ^ 64)
+    (l2 : b2.length < 2 ^ 64 ∧ s2.length < 2 ^ 64 ∧ aad2.length < 2 ^ 64 ∧ (m2.payload.getD []).length < 2 ^ 64)
+    (h : m1.tbsData aad1 g1 = m2.tbsData aad2 g2) : b1 = b2 ∧ s1 = s2 ∧ aad1 = aad2 ∧ m1.payload.getD [] = m2.payload.getD [] := by
+  rw [C03.sign_tbs m1 g1 aad1 b1 s1 h1 k1, C03.sign_tbs m2 g2 aad2 b2 s2 h2 k2] at h
+  simp only [Res.ok.injEq] at h
+  rw [← C03.contexts.1] at h
+  have := (C03.injective .coseSignature .coseSignature _ _ (by simp; omega) (by simp; omega) h).2
+  simpa using this
+
+theorem mac_sensitive (m1 m2 : CoseMac) (aad1 aad2 b1 b2 p1 p2 : Bytes)
+    (h1 : ProtectedHeader.cborBstr m1.protected_ = .ok (.bytes b1)) (h2 : ProtectedHeader.cborBstr m2.protected_ = .ok (.bytes b2))
+    (q1 : m1.payload = some p1) (q2 : m2.payload = some p2)
+    (l1 : b1.length < 2 ^ 64 ∧ aad1.length < 2 ^ 64 ∧ p1.length < 2 ^ 64) (l2 : b2.length < 2 ^ 64 ∧ aad2.length < 2 ^ 64 ∧ p2.length < 2 ^ 64)
+    (h : m1.tbm aad1 = m2.tbm aad2) : b1 = b2 ∧ aad1 = aad2 ∧ p1 = p2 := by
+  rw [C04.mac_tbm m1 aad1 b1 p1 h1 q1, C04.mac_tbm m2 aad2 b2 p2 h2 q2] at h
+  simp only [Res.ok.injEq] at h
+  rw [← C04.contexts.1] at h
+  have := (C04.injective .coseMac .coseMac _ _ (by simp; omega) (by simp; omega) h).2
+  simpa using this
+
+theorem encrypt_sensitive (c : EncryptionContext) (p1 p2 : ProtectedHeader) (aad1 aad2 b1 b2 : Bytes)
+    (h1 : ProtectedHeader.cborBstr p1 = .ok (.bytes b1)) (h2 : ProtectedHeader.cborBstr p2 = .ok (.bytes b2))
+    (l1 : b1.length < 2 ^ 64 ∧ aad1.length < 2 ^ 64) (l2 : b2.length < 2 ^ 64 ∧ aad2.length < 2 ^ 64)
+    (h : encStructureData c p1 aad1 = encStructureData c p2 aad2) : b1 = b2 ∧ aad1 = aad2 := by
+  rw [C05.enc_structure c p1 aad1 b1 h1, C05.enc_structure c p2 aad2 b2 h2] at h
+  simp only [Res.ok.injEq] at h
+  have := (C05.injective c c _ _ (by simp; omega) (by simp; omega) h).2
+  simpa using this
+
+/-! ### the wire at byte level -/
+
+/-- serialising then parsing is `from_cbor_value ∘ to_cbor_value` whenever the emitted value is one the serializer represents faithfully
+    (plain and tagged forms); with the `*_wire` theorems this carries every statement above to `to_vec`/`from_slice`. -/
+theorem through_bytes {α : Type} (tag : Nat) (conv : Value → Res α) (toV : α → Res Value) (m : α) (x : Value) (hx : toV m = .ok x)
+    (hn : Normal (.tag tag x)) (hd : depthOf (.tag tag x) ≤ recursionLimit) :
+    (∃ b, toVec toV m = .ok b ∧ fromSlice conv b = conv x) ∧ (∃ b, toTaggedVec tag toV m = .ok b ∧ fromTaggedSlice tag conv b = conv x) := by
+  have hn' : Normal x := by simp only [Normal] at hn; exact hn.2.2
+  have hd' : depthOf x ≤ recursionLimit := by simp only [depthOf] at hd; omega
+  refine ⟨⟨enc x, by simp [toVec, hx], by simp [fromSlice, readToValue_enc x hn' hd']⟩,
+    ⟨enc (.tag tag x), by simp [toTaggedVec, hx], by simp [fromTaggedSlice, readToValue_enc _ hn hd, tryAsTag]⟩⟩
+
+#print axioms sign1_wire
+#print axioms sign_wire
+#print axioms mac0_wire
+#print axioms mac_wire
+#print axioms encrypt0_wire
+#print axioms encrypt_wire
+#print axioms recipient_wire
+#print axioms sign1_create
+#print axioms sign1_create_detached
+#print axioms sign1_try_create
+#print axioms sign1_try_create_detached
+#print axioms sign_add_created
+#print axioms sign_add_detached
+#print axioms sign_try_add
+#print axioms sign_try_add_detached
+#print axioms mac_create
+#print axioms mac0_create
+#print axioms encrypt_create
+#print axioms encrypt0_create
+#print axioms recipient_create
+#print axioms runOps_preserves
+#print axioms sign1_history
+#print axioms sign_history
+#print axioms mac0_history
+#print axioms mac_history
+#print axioms encrypt0_history
+#print axioms encrypt_history
+#print axioms sign1_end_to_end
+#print axioms sign1_detached_end_to_end
+#print axioms sign_end_to_end
+#print axioms mac0_end_to_end
+#print axioms mac_end_to_end
+#print axioms encrypt0_end_to_end
+#print axioms encrypt_end_to_end
+#print axioms sign1_sensitive
+#print axioms sign_sensitive
+#print axioms mac_sensitive
+#print axioms encrypt_sensitive
+#print axioms through_bytes
 end Coset.Props.C06
